@@ -954,6 +954,15 @@ func runCheck(id, tier string) int {
 		}
 		die(2, "nondeterministic runs in check %s (not a property verdict)", id)
 	}
+	var missing []string
+	for _, pr := range requiredProbes[id] {
+		if agg.Probes[pr] == 0 {
+			missing = append(missing, pr)
+		}
+	}
+	if len(missing) > 0 && tier == "thorough" && nViol == 0 && os.Getenv("VSIM_RUNS") == "" {
+		die(2, "reach probes stuck at zero in the thorough tier of %s: %v (the workload no longer reaches what the property is about)", id, missing)
+	}
 	// evidence
 	wallS := time.Since(t0).Seconds()
 	samples := []any{}
@@ -989,6 +998,7 @@ func runCheck(id, tier string) int {
 		"run_verdicts":                  agg.Verdicts,
 		"distinct_event_logs":           agg.DistinctSch,
 		"reach_probes":                  agg.Probes,
+		"reach_probes_required_but_zero": missing,
 		"determinism_spot_checks":       map[string]int{"reruns": agg.DetChecked, "diverged": agg.DetFailed},
 		"instrumentation":               map[string]any{"files": binfo.Files, "sites": binfo.Counts, "skipped": binfo.Skipped, "degraded": binfo.Degraded},
 		"components_real":               p.Real,
